@@ -786,6 +786,9 @@ def worker(job):
     out['stats'] = core.STATS.as_dict()
     out['xsamples'] = list(core.XSAMPLES)
     out['wall'] = time.time() - t0
+    if out['wall'] > 120 and os.environ.get('VERIF_TIMING'):
+        sys.stderr.write('SLOW %s %s %.0fs cells=%d\n' % (prop, pname, out['wall'], out['cells']))
+        sys.stderr.flush()
     return out
 
 
